@@ -132,6 +132,21 @@ def run(ctx):
                     l = lin(origin(b, c.args[2]))
                     if l.k == 1 and len(l.terms) == 1:
                         adv = True
+    if not adv:
+        # the same advance through the entry API: `let n = map.entry(from).or_insert(0); let nonce = *n; *n = nonce + 1;`
+        from guards import lin as _lin
+        from terms import rvalue_origin as _rvo
+        for b in [top] + F.descendants(top.id):
+            for blk in b.blocks:
+                if blk.get("cleanup"):
+                    continue
+                for st_ in blk["stmts"]:
+                    if st_["k"] == "assign" and st_["lhs"].get("p") == ["*"]:
+                        who = origin(b, {"l": st_["lhs"]["l"], "k": "copy"})
+                        if mentions(who, "HashMap") and (mentions(who, "or_insert") or mentions(who, "get_mut") or mentions(who, "entry")) and mentions(who, ".from"):
+                            l_ = _lin(_rvo(b, st_["rv"], 0, frozenset(), 30))
+                            if l_.k == 1 and len(l_.terms) == 1:
+                                adv = True
     R.ob(adv, "SIBLING", top.where(), "SIBLING|read_contract_multi|nonce-advance", "the multi-call simulation no longer advances the sender's nonce by one per simulated call",
          sample={"rule": "SIBLING", "site": "read_contract_multi", "row": "nonces[from] = nonce + 1"})
     # ---- RPC layer: the request's target is mapped to a transaction kind the same way for simulation and execution.
